@@ -205,3 +205,63 @@ Proof.
 Qed.
 Lemma as_ref_2_3 dx lam z : 0 < dx -> 0 < lam -> as_ph_2_3 dx lam z = z * kz_as lam (fgrid dx 4 3) (fgrid dx 3 2).
 Proof. intros Hd Hl. unfold as_ph_2_3, kz_as. align_sqrt ltac:(unfold fgrid; simpl; field; lra). field. lra. Qed.
+Lemma as_radnn_0_0 dx lam z : 0 < lam -> 0 < dx -> lam * lam <= 2 * (dx * dx) -> 0 <= as_rad_0_0 dx lam z.
+Proof.
+  intros Hl Hd Hg. replace (as_rad_0_0 dx lam z) with (1 - (lam * ((- (1 / 2)) / dx)) ^ 2 - (lam * ((- (1 / 2)) / dx)) ^ 2) by (unfold as_rad_0_0; field; lra).
+  apply rad_as_nonneg; try assumption; lra.
+Qed.
+Lemma as_radnn_0_1 dx lam z : 0 < lam -> 0 < dx -> lam * lam <= 2 * (dx * dx) -> 0 <= as_rad_0_1 dx lam z.
+Proof.
+  intros Hl Hd Hg. replace (as_rad_0_1 dx lam z) with (1 - (lam * ((- (1 / 6)) / dx)) ^ 2 - (lam * ((- (1 / 2)) / dx)) ^ 2) by (unfold as_rad_0_1; field; lra).
+  apply rad_as_nonneg; try assumption; lra.
+Qed.
+Lemma as_radnn_0_2 dx lam z : 0 < lam -> 0 < dx -> lam * lam <= 2 * (dx * dx) -> 0 <= as_rad_0_2 dx lam z.
+Proof.
+  intros Hl Hd Hg. replace (as_rad_0_2 dx lam z) with (1 - (lam * ((1 / 6) / dx)) ^ 2 - (lam * ((- (1 / 2)) / dx)) ^ 2) by (unfold as_rad_0_2; field; lra).
+  apply rad_as_nonneg; try assumption; lra.
+Qed.
+Lemma as_radnn_0_3 dx lam z : 0 < lam -> 0 < dx -> lam * lam <= 2 * (dx * dx) -> 0 <= as_rad_0_3 dx lam z.
+Proof.
+  intros Hl Hd Hg. replace (as_rad_0_3 dx lam z) with (1 - (lam * ((1 / 2) / dx)) ^ 2 - (lam * ((- (1 / 2)) / dx)) ^ 2) by (unfold as_rad_0_3; field; lra).
+  apply rad_as_nonneg; try assumption; lra.
+Qed.
+Lemma as_radnn_1_0 dx lam z : 0 < lam -> 0 < dx -> lam * lam <= 2 * (dx * dx) -> 0 <= as_rad_1_0 dx lam z.
+Proof.
+  intros Hl Hd Hg. replace (as_rad_1_0 dx lam z) with (1 - (lam * ((- (1 / 2)) / dx)) ^ 2 - (lam * ((0 / 1) / dx)) ^ 2) by (unfold as_rad_1_0; field; lra).
+  apply rad_as_nonneg; try assumption; lra.
+Qed.
+Lemma as_radnn_1_1 dx lam z : 0 < lam -> 0 < dx -> lam * lam <= 2 * (dx * dx) -> 0 <= as_rad_1_1 dx lam z.
+Proof.
+  intros Hl Hd Hg. replace (as_rad_1_1 dx lam z) with (1 - (lam * ((- (1 / 6)) / dx)) ^ 2 - (lam * ((0 / 1) / dx)) ^ 2) by (unfold as_rad_1_1; field; lra).
+  apply rad_as_nonneg; try assumption; lra.
+Qed.
+Lemma as_radnn_1_2 dx lam z : 0 < lam -> 0 < dx -> lam * lam <= 2 * (dx * dx) -> 0 <= as_rad_1_2 dx lam z.
+Proof.
+  intros Hl Hd Hg. replace (as_rad_1_2 dx lam z) with (1 - (lam * ((1 / 6) / dx)) ^ 2 - (lam * ((0 / 1) / dx)) ^ 2) by (unfold as_rad_1_2; field; lra).
+  apply rad_as_nonneg; try assumption; lra.
+Qed.
+Lemma as_radnn_1_3 dx lam z : 0 < lam -> 0 < dx -> lam * lam <= 2 * (dx * dx) -> 0 <= as_rad_1_3 dx lam z.
+Proof.
+  intros Hl Hd Hg. replace (as_rad_1_3 dx lam z) with (1 - (lam * ((1 / 2) / dx)) ^ 2 - (lam * ((0 / 1) / dx)) ^ 2) by (unfold as_rad_1_3; field; lra).
+  apply rad_as_nonneg; try assumption; lra.
+Qed.
+Lemma as_radnn_2_0 dx lam z : 0 < lam -> 0 < dx -> lam * lam <= 2 * (dx * dx) -> 0 <= as_rad_2_0 dx lam z.
+Proof.
+  intros Hl Hd Hg. replace (as_rad_2_0 dx lam z) with (1 - (lam * ((- (1 / 2)) / dx)) ^ 2 - (lam * ((1 / 2) / dx)) ^ 2) by (unfold as_rad_2_0; field; lra).
+  apply rad_as_nonneg; try assumption; lra.
+Qed.
+Lemma as_radnn_2_1 dx lam z : 0 < lam -> 0 < dx -> lam * lam <= 2 * (dx * dx) -> 0 <= as_rad_2_1 dx lam z.
+Proof.
+  intros Hl Hd Hg. replace (as_rad_2_1 dx lam z) with (1 - (lam * ((- (1 / 6)) / dx)) ^ 2 - (lam * ((1 / 2) / dx)) ^ 2) by (unfold as_rad_2_1; field; lra).
+  apply rad_as_nonneg; try assumption; lra.
+Qed.
+Lemma as_radnn_2_2 dx lam z : 0 < lam -> 0 < dx -> lam * lam <= 2 * (dx * dx) -> 0 <= as_rad_2_2 dx lam z.
+Proof.
+  intros Hl Hd Hg. replace (as_rad_2_2 dx lam z) with (1 - (lam * ((1 / 6) / dx)) ^ 2 - (lam * ((1 / 2) / dx)) ^ 2) by (unfold as_rad_2_2; field; lra).
+  apply rad_as_nonneg; try assumption; lra.
+Qed.
+Lemma as_radnn_2_3 dx lam z : 0 < lam -> 0 < dx -> lam * lam <= 2 * (dx * dx) -> 0 <= as_rad_2_3 dx lam z.
+Proof.
+  intros Hl Hd Hg. replace (as_rad_2_3 dx lam z) with (1 - (lam * ((1 / 2) / dx)) ^ 2 - (lam * ((1 / 2) / dx)) ^ 2) by (unfold as_rad_2_3; field; lra).
+  apply rad_as_nonneg; try assumption; lra.
+Qed.
